@@ -48,7 +48,7 @@ Init == /\ st = Apply(InitState, NewT, <<>>) /\ hist = <<NewT>>
 
 Next == /\ Len(hist) < MaxHist
         /\ \E op \in Ops :
-             /\ st' = Apply(st, op, ImplEvents(st, SlotsOf(st, op)))
+             /\ st' = Apply(st, op, ImplEvents(st, SlotsOfAll(st, op)))
              /\ hist' = Append(hist, op)
 
 Spec == Init /\ [][Next]_vars
